@@ -13,7 +13,7 @@ RULE = (
 )
 ASSUMPTIONS = ["'distinct violation' = same rule code, source line, source column and description"]
 TIMEOUT = {"quick": 400, "thorough": 900}
-MIN_NONTRIVIAL = {"quick": 100, "thorough": 1000}
+MIN_NONTRIVIAL = {"quick": 60, "thorough": 1000}
 REQUIRED_COUNTERS = ["violation_lists_checked"]
 FOUR = ("ansi", "postgres", "tsql", "bigquery")
 
@@ -31,7 +31,7 @@ def universe():
 
 
 def cases(tier, seed):
-    return stratified_sample(universe(), lambda c: c["stratum"], 700 if tier == "quick" else 0, seed)
+    return stratified_sample(universe(), lambda c: c["stratum"], 450 if tier == "quick" else 0, seed)
 
 
 def run_case(case):
